@@ -217,6 +217,8 @@ def run(ctx):
             continue
         n_loops += 1
         local_copies = set()
+        lowers = {}
+        wrong_base = []
         bad = []
         rebased = set()
         for s in au.walk_stmts(loop.body):
@@ -232,6 +234,7 @@ def run(ctx):
                 if isinstance(v, ast.Subscript) and isinstance(v.value, ast.Name) and v.value.id in cum_names and isinstance(v.slice, ast.Slice) \
                         and (au.names_in(v.slice) & loopvars):
                     local_copies.add(s.targets[0].id)
+                    lowers[s.targets[0].id] = v.slice.lower
                     continue
                 if isinstance(v, ast.Call) and au.method_name(v) == "cumsum":
                     local_copies.add(s.targets[0].id)
@@ -241,19 +244,32 @@ def run(ctx):
                     and isinstance(s.value, ast.Subscript) and isinstance(s.value.value, ast.Name) and s.value.value.id in cum_names \
                     and (au.names_in(s.value.slice) & loopvars):
                 rebased.add(s.target.id)
+                # prefix sums: the block [a, b) of a cumulative sum C is re-based with C[a - 1], the total *before* the block
+                lo = lowers.get(s.target.id)
+                ev = lf.LinEval(lambda e: e.id if isinstance(e, ast.Name) else None)
+                f_idx, f_lo = ev.ev(s.value.slice), (ev.ev(lo) if lo is not None else {})
+                if f_idx is not None and f_lo is not None:
+                    off = lf.const_of(lf.add(f_idx, f_lo, -1))
+                    if off != -1:
+                        wrong_base.append((s, off))
                 continue
             bad.append((s, uses[0]))
         not_rebased = local_copies - rebased
-        ok = not bad and not not_rebased
+        ok = not bad and not not_rebased and not wrong_base
         detail = ""
-        if bad:
+        if wrong_base:
+            detail = "the block copy starts at the block's first step but is re-based with the cumulative inflow at offset %s from " \
+                     "that step instead of -1 (the total *before* the block): every block after the first loses / gains the inflow of " \
+                     "one step, so its level ends above / below the end level and may exceed the size (line %s: %s)" % (
+                         wrong_base[0][1], wrong_base[0][0].lineno, au.short(wrong_base[0][0], 60))
+        if bad and not wrong_base:
             detail = "the cumulative inflow since the start of the horizon is used for the rows of a block (%s): every block after " \
                      "the first is charged with all inflow before it - with two daily blocks, inflow 1/h and rates 5/h the problem " \
                      "is infeasible" % "; ".join("line %s: %s" % (s.lineno, au.short(s, 60)) for s, _ in bad[:3])
         elif not_rebased:
             detail = "the block-local copy %s is sliced from the global cumulative inflow but never re-based (minus its value before " \
                      "the block)" % sorted(not_rebased)
-        ctx.ob("C05.g", setup, "block loop `for %s in %s`" % (au.U(loop.target), au.short(loop.iter, 40)), ok, detail, node=(bad[0][0] if bad else loop),
+        ctx.ob("C05.g", setup, "block loop `for %s in %s`" % (au.U(loop.target), au.short(loop.iter, 40)), ok, detail, node=(wrong_base[0][0] if wrong_base else (bad[0][0] if bad else loop)),
                ok_detail="global cumulative inflow only used to build a re-based block copy (%s)" % ", ".join(sorted(local_copies)))
     if n_loops == 0:
         ctx.ob("C05.g", setup, "block loop", None, "no loop filling diagonal blocks found (block variant rewritten?)")
